@@ -252,6 +252,12 @@ def run(ctx):
             if out is None:
                 ctx.violation({"fn": "encode(htmlentityreplace)", "charset": cs, "input": s}, "encoding raised", tags=["c10.handler.raises"])
                 continue
+            # every character is either encoded or replaced -- none dropped, none duplicated
+            piecewise = b"".join(ch.encode(cs, "htmlentityreplace") for ch in s)
+            if out != piecewise:
+                ctx.violation({"fn": "encode(htmlentityreplace)", "charset": cs, "input": s, "output": repr(out), "expected": repr(piecewise)},
+                              "output is not the concatenation of each character's encoding/replacement (a character was dropped or duplicated)",
+                              tags=["c10.handler.run"])
             # replacement of each unencodable character decodes back to it
             for ch in set(unenc):
                 rep = ch.encode(cs, "htmlentityreplace").decode(cs)
